@@ -20,6 +20,17 @@ import (
 	"verifkit"
 )
 
+// Generator switches named after the known findings they exclude. Set one to false once the
+// corresponding repair is in /repo (and mark the finding "fixed" in known_findings.json): the main
+// campaign then covers the shape itself and the directed TestVerifC09KF* test asserts the
+// repaired behaviour.
+const (
+	// compaction-spins-forever-on-undecodable-block: corrupt only blocks that are never decoded
+	vC09ExcludeDecodeSpin = true
+	// aborted-snapshot-left-tmp: never fire DisableSnapshots at the last block of a snapshot
+	vC09ExcludeSnapshotLastBlockAbort = true
+)
+
 // vC09Hook is the per-case callback behind the process-wide verifhook.
 var vC09Hook atomic.Value // func(ev, path string, n int64)
 
@@ -199,7 +210,7 @@ func vC09CompactionProperty(t *testing.T, name string, blockLimit bool, rule str
 						}
 					}
 					for b := range lay {
-						if holders == 1 && !tombed && (mode == "fast" || len(lay) == 1) {
+						if !vC09ExcludeDecodeSpin || holders == 1 && !tombed && (mode == "fast" || len(lay) == 1) {
 							cands = append(cands, [3]int{fi, k, b})
 						}
 					}
@@ -223,24 +234,27 @@ func vC09CompactionProperty(t *testing.T, name string, blockLimit bool, rule str
 				es := r.Entries([]byte(c.keys[ch[1]]))
 				r.Close()
 				if ch[2] >= len(es) {
-					rt.Fatalf("harness: key %d of %s has %d index entries, expected block %d", ch[1], fl.path, len(es), ch[2])
-				}
-				f, err := os.OpenFile(fl.path, os.O_RDWR, 0666)
-				if err != nil {
-					rt.Fatal(err)
-				}
-				// block = 4 byte checksum, 1 byte type, uvarint length of the timestamp section, ...
-				if how == "type" {
-					_, err = f.WriteAt([]byte{0x55}, es[ch[2]].Offset+4) // BlockCount works, decoders reject it
+					// a tombstone loaded from disk already removed the key from the index (only
+					// possible when vC09ExcludeDecodeSpin is off): nothing to corrupt
+					inj = "none"
 				} else {
-					_, err = f.WriteAt([]byte{0xff, 0xff, 0xff, 0x7f}, es[ch[2]].Offset+5) // BlockCount fails
+					f, err := os.OpenFile(fl.path, os.O_RDWR, 0666)
+					if err != nil {
+						rt.Fatal(err)
+					}
+					// block = 4 byte checksum, 1 byte type, uvarint length of the timestamp section, ...
+					if how == "type" {
+						_, err = f.WriteAt([]byte{0x55}, es[ch[2]].Offset+4) // BlockCount works, decoders reject it
+					} else {
+						_, err = f.WriteAt([]byte{0xff, 0xff, 0xff, 0x7f}, es[ch[2]].Offset+5) // BlockCount fails
+					}
+					if err != nil {
+						rt.Fatal(err)
+					}
+					f.Close()
+					skip[c.keys[ch[1]]] = true
+					inj = "corrupt-" + how
 				}
-				if err != nil {
-					rt.Fatal(err)
-				}
-				f.Close()
-				skip[c.keys[ch[1]]] = true
-				inj = "corrupt-" + how
 			}
 		}
 
